@@ -84,7 +84,7 @@ func (s *state) postOf(o obs) graph.M {
 	sum := func(m map[string]string) graph.M {
 		return graph.M{"all": atoi(m["all"]), "pools": atoi(m["pools"]), "accounts": atoi(m["accounts"]), "delegated": atoi(m["delegated"])}
 	}
-	return graph.M{"bal": bal, "modBal": atoi(o.ModBal), "locked": locked, "acct": acct, "pools": pools, "traces": traces, "summary": sum(o.Summary[0]), "gsummary": sum(o.Summary[1])}
+	return graph.M{"vdenom": o.VDenom, "bal": bal, "modBal": atoi(o.ModBal), "locked": locked, "acct": acct, "pools": pools, "traces": traces, "summary": sum(o.Summary[0]), "gsummary": sum(o.Summary[1])}
 }
 
 // RunTrace records n executions into out; hdr is a TLC output holding the header lines (meta, vesting types, set-ups).
@@ -172,7 +172,8 @@ func RunTrace(hdr, out string, n int, seed int64) (*TraceStats, error) {
 			return c[rng.Intn(len(c))]
 		}
 		spendableD := func(a, d string) int64 { return app.BankKeeper.SpendableCoins(ctx, s.addr[a]).AmountOf(d).Int64() }
-		spendable := func(a string) int64 { return spendableD(a, "uc4e") }
+		curDenom := "uc4e" // the vesting denomination as far as the driver knows (a governance update may change it while no pools exist)
+		spendable := func(a string) int64 { return spendableD(a, curDenom) }
 		lockedD := func(a, d string) int64 { return app.BankKeeper.LockedCoins(ctx, s.addr[a]).AmountOf(d).Int64() }
 		// a random non-empty sublist of the denominations (sorted), mostly all of them
 		someDenoms := func() []string {
@@ -211,6 +212,21 @@ func RunTrace(hdr, out string, n int, seed int64) (*TraceStats, error) {
 			return 1 + rng.Int63n(n)
 		}
 		for step := 0; step < nsteps; step++ {
+			if (step == 0 && rng.Intn(3) == 0) || rng.Intn(40) == 0 {
+				// MsgUpdateDenomParam: by governance or by a user, to one of the denominations
+				auth, d := pick("gov", "gov", "user"), denoms[rng.Intn(len(denoms))]
+				a := graph.M{"name": "updatedenom", "auth": auth, "d": d}
+				outcome, detail, _, _ := e.Deliver(ctx, s.buildMsg(a))
+				if outcome == "panic" {
+					return nil, fmt.Errorf("denom update panicked: %s", detail)
+				}
+				if outcome == "ok" {
+					curDenom = d
+				}
+				st.Messages["updatedenom."+outcome]++
+				emit(graph.M{"ev": "updatedenom", "auth": auth, "d": d, "ok": outcome == "ok", "post": s.postOf(s.project(ctx))})
+				continue
+			}
 			switch k := rng.Intn(12); {
 			case k <= 1 && now < 30:
 				d := int64(1 + rng.Intn(3))
